@@ -225,6 +225,13 @@ def exec_conv(scn):
         other = apply_history(build_source(sg, scn["n"], variant=1), scn["hist"], sg)
         call_converter(name, other, shift)
         rec["outs_after"] = [proj_chart(m) for m, _ in outs]
+    except ValueError as e:
+        if "isn't supported" in str(e) and rec["src"] and not rec["outs"]:
+            # the converters that infer the key count from the highest occupied column refuse counts the target
+            # game has no mode for (e.g. after a filter removed the top lane's only object): judged as a refusal
+            rec["op"] = "refusal"
+        else:
+            rec["exc"] = exc_name(e)
     except Exception as e:
         rec["exc"] = exc_name(e)
     return [rec]
